@@ -139,6 +139,10 @@ def to_formula(t: Term, atom_hook: Optional[Callable[[Term], Optional[object]]] 
             if items is not None and all(i[0] != "star" for i in items):
                 fs = [to_formula(x, atom_hook) for x in items]
                 return f_or(*fs) if f[2] in ("any", "bool") else f_and(*fs)
+            if inner[0] == "call" and inner[1] == ("n", "Cat") and len(inner[2]) == 1 and inner[2][0][0] in ("lc", "star"):
+                q = inner[2][0]
+                q = q[1] if q[0] == "star" else q
+                return ("atom", ("anyq" if f[2] in ("any", "bool") else "allq", q))
             if f[2] in ("any", "bool"):
                 a, pol = norm_atom(t)
                 return ("atom", a) if pol else f_not(("atom", a))
